@@ -270,8 +270,19 @@ class C08(Prop):
             deg = cfg.params["deg"]
             pd = rng.randint(0, self.MAXDEG[deg])
             sig = f"p{pd},{rng.randint(0, 999)}" if rng.random() < 0.7 else rng.choice(["i", "r%d" % rng.randint(0, 999)])
-            h = gen.gen_valid_history(rng, cfg, rng.randint(4, 14), ratio_changes="none", masks="none",
-                                      wrappers=False, resets=False, partial=False, dump=True, sig=sig)
+            small = i % 5 == 4
+            if small:
+                # chunks shorter than the kernel's history with rejected calls in between: whatever a refused call touches,
+                # the frames that follow must still be fitted through the right samples
+                p = cfg.line.split()
+                p[5] = str(rng.randint(1, 15))
+                cfg.line, cfg.chunk = " ".join(p), int(p[5])
+            h = gen.gen_valid_history(rng, cfg, rng.randint(4, 14) if not small else rng.randint(20, 40), ratio_changes="none",
+                                      masks="none", wrappers=False, resets=False, partial=False, dump=True, sig=sig)
+            if small:
+                for _ in range(rng.randint(1, 3)):
+                    h.ops.insert(rng.randint(2, len(h.ops)), f"0 proc - n m {sig} dump oc={cfg.nch + 1}")
+                h.meta["feats"] = sorted(set(h.meta["feats"]) | {"rejected-call"})
             h.meta["sig"] = sig
             h.meta["deg"] = deg
             hs.append(h)
@@ -415,6 +426,9 @@ def sig_value(sig, ch, g):
         return acc + float(ch)
     if h == "k":
         return 1.0 if g == int(t) else 0.0
+    if h == "b":
+        pd, sd = t.split(",")
+        return sig_value("r" + sd, ch, g) if (g // int(pd) + ch) % 2 == 0 else 0.0
     raise ValueError(sig)
 
 
@@ -489,7 +503,12 @@ class C10(Prop):
                 feats.add("masked-last-call")
             if cfg.kind in gen.ASYNC and cfg.maxrel > 1.0 and rng.random() < 0.5:
                 r, rel = gen.in_range_ratio(rng, cfg, calm=True)
-                ops.append(f"0 ratio {hx(r)} 1")
+                if rng.random() < 0.5:
+                    ops.append(f"0 ratio {hx(r)} 1")
+                else:
+                    # step away, run, then a ramp BACK to the construction ratio is pending when reset() comes
+                    ops += [f"0 ratio {hx(r)} 0", f"0 proc - n m r{rng.randint(0, 999)}",
+                            rng.choice([f"0 ratio {hx(cfg.ratio)} 1", f"0 rel {hx(1.0)} 1"])]
                 feats.add("pending-ramp")
             reset_at = len(ops)
             ops.append("0 reset")
@@ -758,7 +777,15 @@ class C13(Prop):
     def malformed(self, rng, cfg, mask):
         n = cfg.nch
         c = rng.random()
+        if c < 0.06:
+            # an explicit mask of the RIGHT length and the wrong number of input channels
+            k = rng.choice([max(0, n - 1), n + 1, n + 3])
+            return f"proc {'1' * n} n m r1 ic={k}", "in-channels-with-mask"
         if c < 0.12:
+            # mask and input both have the same WRONG number of channels: the mask is what is reported
+            k = rng.choice([n + 1, n + 2] + ([n - 1] if n > 1 else []))
+            return f"proc {'1' * k} n m r1 ic={k}", "in-and-mask-channels"
+        if c < 0.18:
             return f"proc {mask} n m r1 ic={rng.choice([0, max(0, n - 1), n + 1, n + 3])}", "in-channels"
         if c < 0.24:
             return f"proc {mask} n m r1 oc={rng.choice([0, max(0, n - 1), n + 1, n + 2])}", "out-channels"
@@ -894,6 +921,19 @@ class C13(Prop):
                 if gb is not None and fr["g"] != gb:
                     out.append(viol("C13", h, kk, info, "malformed-call-changed-getters", {"before": gb, "after": fr["g"]}))
                     return out
+                # "the matching Err variant": what is wrong with the call decides the variant
+                bk = h.meta.get("bad_kind", {}).get(kk) or h.meta.get("bad_kind", {}).get(str(kk))
+                want = {"in-channels": "err WrongNumberOfInputChannels", "in-channels-with-mask": "err WrongNumberOfInputChannels",
+                        "in-and-mask-channels": "err WrongNumberOfMaskChannels", "out-channels": "err WrongNumberOfOutputChannels",
+                        "mask-length": "err WrongNumberOfMaskChannels", "in-short": "err InsufficientInputBufferSize",
+                        "in-empty": "err InsufficientInputBufferSize", "out-short": "err InsufficientOutputBufferSize",
+                        "out-empty": "err InsufficientOutputBufferSize"}.get(bk)
+                if want is not None and not st.startswith(want):
+                    out.append(viol("C13", h, kk, info, "wrong-error-variant", {"malformed": bk, "expected": want, "got": st}))
+                    return out
+                if st.startswith("err Wrong") and info is not None and st.split()[2] != str(info.nch if hasattr(info, "nch") else st.split()[2]):
+                    out.append(viol("C13", h, kk, info, "wrong-error-payload", {"malformed": bk, "got": st}))
+                    return out
         # twin comparison of the valid ops
         k = 2
         while k < len(h.ops):
@@ -998,6 +1038,30 @@ class C16(Prop):
                 ops += ["0 procw - n r5", "1 proc - n m r5"]
             hs.append(History(ops, {"cfg": line, "kind": "fftin", "ty": ty, "feats": ["process", "fftin-alignments"],
                                     "pairs": pairs}))
+        # a ramp is pending when the wrapper is called: what the wrapper allocates (sized by the getter) must be what the
+        # core call asks for DURING the ramp, upwards and downwards, every asynchronous type
+        for i in range(3 * len(gen.ASYNC)):
+            kind = gen.ASYNC[i % len(gen.ASYNC)]
+            cfg = gen.gen_cfg(rng, kinds=[kind], max_chunk=1024, nch=rng.choice([1, 2]), sinc_lens=[8, 16])
+            p = cfg.line.split()
+            p[3] = hx(2.0)
+            p[5 if kind.startswith("fast") else 9] = str(rng.choice([256, 480, 1024]))
+            if not (0.2 <= cfg.ratio <= 5):
+                p[2] = hx(1.2)
+            line = " ".join(p)
+            ops = [f"0 new {line}", f"1 new {line}"]
+            pairs = []
+            for rel in rng.sample([0.97, 1.05, 0.998, 0.9, 1.002, 1.1], 4):
+                form = f"rel {hx(rel)} 1"
+                ops += [f"0 {form}", f"1 {form}"]
+                a, b = rng.choice([("procw - n r3", "proc - n m r3"), ("partw - p3 r3", "proc - n m r3 zl=p3"),
+                                   ("procw - n r3 dyn", "proc - n m r3"), ("partw - none r3", "proc - n m z")])
+                pairs.append(len(ops))
+                ops += [f"0 {a}", f"1 {b}"]
+                pairs.append(len(ops))
+                ops += ["0 procw - n r3", "1 proc - n m r3"]
+            hs.append(History(ops, {"cfg": line, "kind": kind, "ty": cfg.ty,
+                                    "feats": ["process", "process_partial", "pending-ramp"], "pairs": pairs}))
         # asynchronous types at sizes where chunk*ratio (fixed input) or chunk/ratio (fixed output) is an EXACT integer for a
         # ratio that is not a binary fraction: the size estimates sit on a floor/ceil boundary there, and the wrappers size their
         # buffers with the getters while the core call checks against its own evaluation of the same expression
@@ -1370,6 +1434,10 @@ class C15(Prop):
             fc = rng.choice([0.95, 0.9, 0.5, 0.99])
             win = rng.randint(0, 5)
             cfgs.append((ty, ln, osf, fc, win))
+        # both sample types at lengths that cross the unrolling / blocking boundaries of the widest kernels: 8 mod 16, and more
+        # than 512 taps (65 and 129 eight-lane vectors)
+        for ty, ln, osf in (("f32", 520, 1), ("f32", 1032, 2), ("f64", 520, 1), ("f64", 1032, 1), ("f32", 72, 3), ("f64", 136, 2)):
+            cfgs.append((ty, ln, osf, rng.choice([0.95, 0.9]), rng.randint(0, 5)))
         kinds = ["scalar", "avx", "sse"]
         # 1. tables
         lines = []
@@ -1707,6 +1775,16 @@ class C04(Prop):
                     ops += [f"0 proc - {big} m {sg}", f"1 proc - n m {sg}"]
             hs.append(History(ops, {"cfg": cfg.line, "kind": cfg.kind, "ty": cfg.ty, "feats": ["oversized-twin", "part"],
                                     "twin_pairs": pairs, "dyn_pairs": dynpairs}))
+        # a rejected call (wrong number of output channels: refused whatever sizes are currently asked for) consumes and
+        # produces nothing: every promise must hold unchanged for the calls that follow it -- every type, twice
+        for i in range(2 * len(gen.ALL)):
+            cfg = gen.gen_cfg(rng, kinds=[gen.ALL[i % len(gen.ALL)]], max_chunk=600, probe=rng.random() < 0.7)
+            h = gen.gen_valid_history(rng, cfg, rng.randint(6, 30), ratio_changes="calm", masks=rng.choice(["none", "const"]))
+            for _ in range(rng.randint(1, 3)):
+                h.ops.insert(rng.randint(1, len(h.ops)), f"0 proc - n m i oc={cfg.nch + 1}")
+                h.ops.insert(rng.randint(1, len(h.ops)), "0 get")
+            h.meta["feats"] = sorted(set(h.meta["feats"]) | {"rejected-call"})
+            hs.append(h)
         # the max getters are promises for the whole life: go to the low end of the permitted range, read them, go to the high
         # end (stepped or ramped), read next; failures of the fixed-input types on such schedules are the findings D3/D4
         for i in range(max(8, self.n // 5)):
@@ -1852,6 +1930,10 @@ class C07(Prop):
                 elif c < 0.12:
                     ops.append("0 part - none m z")
                     feats.add("part")
+                elif c < 0.14:
+                    # a rejected call (wrong number of output channels) takes and gives nothing: it must not show in the accounts
+                    ops.append(f"0 proc - n m z oc={cfg.nch + 1}")
+                    feats.add("rejected-call")
                 else:
                     # the frame accounting must not depend on which channels are active (all-false masks included)
                     mk = "-" if rng.random() < 0.8 else rng.choice(["0" * cfg.nch, gen.rand_mask(rng, cfg.nch)])
@@ -2051,6 +2133,29 @@ class C05(Prop):
                         ops.append(f"{slot} proc - {insz} m {sig} dump")
                 hs.append(History(ops, {"cfg": lines[1], "kind": "fft", "ty": ty, "feats": ["fft-variants"],
                                         "pair": ("fftio", "fftin", "fftout"), "chunks": (fi, fi * s1, fo * s2), "fft": True}))
+        # output chunks SHORTER than the ratio (1-3 frames when up-sampling by 2.2 .. 50): many calls of the fixed-output types
+        # need no new input at all, and the fixed-input ones produce bursts; against an ordinary chunking of the same stream
+        for kind in gen.ASYNC:
+            for ratio in (96000 / 44100, 8.0, 50.0):
+                cfg = gen.gen_cfg(rng, kinds=[kind], nch=1, probe=True, sinc_lens=[8, 16, 32], max_chunk=64)
+                p = cfg.line.split()
+                ci = 5 if kind.startswith("fast") else 9
+                p[2], p[3] = hx(ratio), hx(1.0)
+                ca, cb = rng.choice([1, 1, 2, 3]), rng.choice([48, 64, 100])
+                p2 = list(p)
+                p[ci], p2[ci] = str(ca), str(cb)
+                if kind.startswith("sinc"):
+                    p[4] = p2[4] = str(rng.choice([0, 1, 2]))
+                    p[6] = p2[6] = str(rng.choice([16, 128]))
+                sig = "r%d" % rng.randint(0, 999)
+                total_in = 120 if ratio > 10 else 400
+                ops = [f"0 new {' '.join(p)}", f"1 new {' '.join(p2)}"]
+                for slot, chunk in ((0, ca), (1, cb)):
+                    per = chunk if kind.endswith("in") else max(chunk / ratio, 1e-9)
+                    for j in range(max(2, min(6000, int(total_in / per)))):
+                        ops.append(f"{slot} proc - n m {sig} dump")
+                hs.append(History(ops, {"cfg": " ".join(p), "kind": kind, "ty": cfg.ty, "feats": ["rechunk", "chunk-below-ratio"],
+                                        "pair": (kind, kind), "chunks": (ca, cb), "fft": False, "exact": False}))
         return hs
 
     def distinct_key(self, h):
@@ -2176,7 +2281,9 @@ class C06(Prop):
                 if c < 0.3 and cfg.maxrel > 1:
                     r, rel = gen.in_range_ratio(rng, cfg, calm=(rc == "calm"))
                     ramp = rng.choice([0, 1])
-                    ops.append(f"0 ratio {hx(r)} {ramp}")
+                    # absolute or relative setter, directly or through `&mut dyn VecResampler`
+                    form = f"ratio {hx(r)}" if rng.random() < 0.5 else f"rel {hx(rel)}"
+                    ops.append(f"0 {form} {ramp}" + (" dyn" if rng.random() < 0.4 else ""))
                     feats.add("ratio-ramp" if ramp else "ratio-step")
                 elif c < 0.36 and kind.startswith("sinc"):
                     ops.append(f"0 chunk {rng.randint(1, cfg.chunk)}")
@@ -2434,6 +2541,31 @@ class C11(Prop):
                     ops.append(f"{2 + c} proc - n m {sg} co={c}")
             hs.append(History(ops, {"cfg": cfg.line, "kind": kind, "ty": cfg.ty, "feats": ["mask:" + mask, "same-grid-point"],
                                     "mask": mask, "nch": nch}))
+        # synchronous types, channels that fall exactly silent at DIFFERENT times (bursts aligned with the FFT blocks, the
+        # channels alternating): whatever a block of exact zeros lets the per-block unit skip must be decided per channel
+        for i in range(2 * len(gen.FFT)):
+            kind = gen.FFT[i % len(gen.FFT)]
+            nch = rng.randint(2, 3)
+            ri, ro = rng.choice([(2, 3), (3, 2), (44100, 48000), (48000, 44100), (1, 2), (7, 5)])
+            g = math.gcd(ri, ro)
+            kmul = rng.choice([1, 2]) if max(ri, ro) // g > 100 else rng.choice([8, 16, 40])
+            fi, fo = kmul * ri // g, kmul * ro // g
+            ty = rng.choice(["f64", "f32"])
+            if kind == "fftio":
+                line, one = f"{ty} fftio {ri} {ro} {fi} {nch}", f"{ty} fftio {ri} {ro} {fi} 1"
+            else:
+                ch = fi if kind == "fftin" else fo
+                line, one = f"{ty} {kind} {ri} {ro} {ch} 1 {nch}", f"{ty} {kind} {ri} {ro} {ch} 1 1"
+            mask = "1" * nch if i % 2 == 0 else "".join(rng.choice("01") for _ in range(nch))
+            sg = f"b{fi * rng.choice([1, 1, 2])},{rng.randint(0, 999)}"
+            ops = [f"0 new {line}", f"1 new {line}"] + [f"{2 + c} new {one}" for c in range(nch)]
+            for _ in range(rng.randint(6, 10)):
+                ops.append(f"0 proc {mask} n m {sg} em")
+                ops.append(f"1 proc - n m {sg}")
+                for c in range(nch):
+                    ops.append(f"{2 + c} proc - n m {sg} co={c}")
+            hs.append(History(ops, {"cfg": line, "kind": kind, "ty": ty, "feats": ["mask:" + mask, "staggered-silence"],
+                                    "mask": mask, "nch": nch}))
         return hs
 
     def distinct_key(self, h):
@@ -2668,6 +2800,20 @@ class C14(Prop):
                 ops.insert(rng.randint(2, max(3, int(n / per_in) - 2)), f"0 proc - n m k{n} dump oc=2")
             hs.append(History(ops, {"cfg": line, "kind": kind, "ty": ty, "feats": ["impulse", "rejected-call", "sub-block-chunks"],
                                     "n": n, "ratio": ro / ri}))
+        # the README's end-of-clip recipe on the fixed-input polynomial type: whole chunks through process_into_buffer, the
+        # last, shorter chunk through the allocating process_partial, then flushes with None; an event a few frames before the
+        # end of the clip must come out where output_delay() says, across the boundaries between those calls
+        for i in range(8):
+            ty = rng.choice(["f64", "f32"])
+            ratio = rng.choice([1.0, 1.2, 0.8, 2.0, 48000 / 44100])
+            chunk = rng.choice([32, 64, 100, 128])
+            k = rng.randint(2, 5)
+            d = rng.randint(1, chunk // 2)
+            n = k * chunk + (chunk - d) - 1 - rng.randint(0, 2)
+            line = f"{ty} fastin {hx(ratio)} {hx(1.0)} {rng.randint(0, 3)} {chunk} 1"
+            ops = [f"0 new {line}"] + [f"0 proc - n m k{n} dump"] * k + [f"0 partw - p{d} k{n} dump"] + [f"0 partw - none k{n} dump"] * 3
+            hs.append(History(ops, {"cfg": line, "kind": "fastin", "ty": ty, "feats": ["impulse", "end-of-clip-flush"], "n": n,
+                                    "ratio": ratio}))
         # FFT types, request a few frames beyond a whole number of sub-chunks of whole units (each integer division in the
         # block arithmetic drops a different remainder there), up- and down-sampling
         for i in range(8):
@@ -2901,6 +3047,10 @@ class ToneProp(Prop):
                         ri, ro = ro, ri
                 g = math.gcd(ri, ro)
                 kmul = rng.choice([1, 2, 4]) if max(ri, ro) // g > 100 else rng.choice([64, 128, 256, 512])
+                if self.stop and fftk in (3, 10):
+                    # very short blocks (20..28 frames at the lower rate): the built-in cutoff must keep falling with the
+                    # block length for the transition band to stay below the new Nyquist frequency
+                    kmul = rng.randint(10, 14)
                 fi, fo = kmul * ri // g, kmul * ro // g
                 ratio = ro / ri
                 chunk = fi if kind != "fftout" else fo
@@ -2934,12 +3084,19 @@ class ToneProp(Prop):
             insz = "n" if rng.random() < 0.5 else rng.choice(["m", "m+%d" % rng.randint(1, 1500), "n+%d" % rng.randint(1, 1500)])
             if fftk is not None:
                 insz = "n" if (fftk // 6) % 2 == 0 else ["m+%d" % rng.randint(1, 1500), "n+%d" % rng.randint(1, 1500)][fftk % 2]
-            ops = [f"0 new {line}"] + [f"0 proc - {insz} m s{hx(f_in)} dump"] * ncalls
+            call = f"0 proc - {insz} m s{hx(f_in)} dump"
             feats_extra = [] if insz == "n" else ["oversized-input"]
+            if len(hs) % 3 == 2:
+                # every third stream is run the way an application holding a `Box<dyn VecResampler>` runs it: `process()`
+                # through the wrapper trait, which does not report the consumed count -- the caller advances by the wrapper
+                # trait's own input_frames_next()
+                call = f"0 procw - n s{hx(f_in)} dyn dump"
+                feats_extra = ["dyn-wrapper"]
+            ops = [f"0 new {line}"] + [call] * ncalls
             if meta["fam"] == "sinc" and rng.random() < 0.5:
                 # "every way of chunking the stream": change the chunk size mid-stream a few times (and feed more calls,
                 # the chunks only get smaller)
-                ops += [f"0 proc - {insz} m s{hx(f_in)} dump"] * min(ncalls, 200)
+                ops += [call] * min(ncalls, 200)
                 for _ in range(rng.randint(1, 4)):
                     pos = rng.randint(2, max(3, int(0.5 * len(ops))))
                     ops.insert(pos, f"0 chunk {rng.randint(max(1, chunk // 4), chunk)}")
